@@ -1,6 +1,6 @@
 /- Model driver for C08: the hand model of IborCapFloor.value / IborSwaption.value (`Model/C08`) instantiated at
    `Float` with the GENERATED Black-family kernels of `Gen/BSF`.  One op per line, floats as IEEE bit patterns:
-     CAPFLOOR <code> <n> <5 model params> <K> <N> then per period: alpha fwd df texp tmat sabrVol ptExp ptMat
+     CAPFLOOR <code> <n> <5 model params> <K> <N> <hasFixing 0|1> <last_fixing> then per period: alpha curveFwd df texp tmat sabrVol ptExp ptMat
         -> cap floor caplet[1..n] floorlet[1..n]
      SWAPTION <code> <5 model params> <s> <K> <texp> <pv01> <dfSettle> <N>  -> payer receiver
    model codes: 1 Black(vol) 2 BlackShifted(vol, shift) 3 Bachelier(vol) 4 SABR 5 SABRShifted (Black vol per option
@@ -58,10 +58,11 @@ def capfloor (args : List String) : String :=
   | c :: n :: rest =>
     (match c.toInt?, n.toNat?, floats? rest with
      | some code, some n, some fs =>
-       if fs.length ≠ 7 + 8 * n then "bad-op" else
+       if fs.length ≠ 9 + 8 * n then "bad-op" else
        (match mdlOf code (fs.take 5), fs.drop 5 with
-        | some m, k :: nt :: per =>
-          let ps := periods per
+        | some m, k :: nt :: hasFix :: fix :: per =>
+          -- every period carries the CURVE forward; the contract's last_fixing (None / a number, 0.0 included) is applied here
+          let ps := withFixing (if hasFix != 0.0 then some fix else none) (periods per)
           let cap := capFloorValue floatKern m true k nt ps
           let flo := capFloorValue floatKern m false k nt ps
           showFloats ([cap, flo] ++ capletTable floatKern m true k nt ps ++ capletTable floatKern m false k nt ps)
